@@ -60,8 +60,11 @@ func NewStackingContext(box Box, childContexts []StackingContext, blocks []bo.Bo
 	// sort() is stable, so the lists are now storted
 	// by z-index, then tree order.
 
+	// z-index only applies to positioned boxes: a non-positioned box which
+	// creates a stacking context (opacity, transform, overflow) is painted
+	// at the level of z-index: 0, whatever its z-index property.
 	zIndex := box.Box().Style.GetZIndex()
-	if zIndex.String == "auto" {
+	if zIndex.String == "auto" || box.Box().Style.GetPosition().String == "static" {
 		self.zIndex = 0
 	} else {
 		self.zIndex = zIndex.Int
